@@ -570,6 +570,8 @@ impl vstd::std_specs::cmp::PartialEqSpecImpl for Name {
   open spec fn eq_spec(&self, other: &Name) -> bool { self@ == other@ }
 }
 impl PartialEq for Name { #[verifier::external_body] fn eq(&self, other: &Name) -> (r: bool) { unimplemented!() } }
+impl Eq for Name {}
+impl core::hash::Hash for Name { #[verifier::external_body] fn hash<H: core::hash::Hasher>(&self, state: &mut H) { unimplemented!() } }
 /// `<&str as Into<String>>::into` / `String::from(&str)` / `to_string()`: the same characters
 #[verifier::external_body]
 pub fn __vp_name_from_ref(s: &Name) -> (r: Name) ensures r == *s { unimplemented!() }
@@ -672,20 +674,10 @@ pub open spec fn is_index_mapping(idx: Seq<usize>, full: Seq<Name>, subset: Seq<
 /// the arguments the wrapped callable hands to the user's function: its declared names, in its own order, looked up by position
 pub open spec fn routed(p: Seq<real>, idx: Seq<usize>) -> Seq<real> { Seq::new(idx.len(), |i: int| p[idx[i] as int]) }
 
-/// ASSUMED LEAF src/model/detail.rs `has_only_unique_elements` (HashSet + `all` with a stateful closure: outside the Verus
-/// dialect; Kani timed out on Name + SipHash, so there is no bounded stand-in): true iff no two elements are equal
+/// ASSUMED: `String`'s `Hash` and `Eq` agree and are deterministic (vstd's key model), so a `HashSet<&String>` behaves as
+/// the mathematical set of the strings inserted
 #[verifier::external_body]
-pub fn has_only_unique_elements(names: &[Name]) -> (r: bool) ensures r == no_dups(names@) { unimplemented!() }
-/// ASSUMED LEAF src/model/detail.rs `create_index_mapping` (map/position/collect into Result): the position of every subset
-/// element in `full`; Err(FunctionParameterNotInModel) iff some subset element is missing
-#[verifier::external_body]
-pub fn create_index_mapping(full: &[Name], subset: &[Name]) -> (r: Result<Vec<usize>, ModelBuildError>)
-  ensures
-    r matches Ok(idx) ==> is_index_mapping(idx@, full@, subset@),
-    r.is_err() <==> exists |i: int| 0 <= i < subset@.len() && !name_in(full@, #[trigger] subset@[i]@),
-    r matches Err(e) ==> (e matches ModelBuildError::FunctionParameterNotInModel { function_parameter }
-        && name_in(subset@, function_parameter@) && !name_in(full@, function_parameter@)),
-{ unimplemented!() }
+pub proof fn axiom_name_key_model() ensures vstd::std_specs::hash::obeys_key_model::<&Name>() {}
 
 // =============================================================================== varpro leaves (assumed; bounded Kani validation)
 /// src/solvers/levmar/mod.rs `is_all_finite` (iterator `all` over the entries; Verus has no iterator adapters):
